@@ -26,6 +26,11 @@ BOUNDS = {
     # the caller's Vec (doubling) + the 8 KiB copy buffer of io::copy
     "bl": (4, 64 * K),
 }
+# Probe for "skipped packets x prototype length" (repaired in the crate: advance() goes on to the next packet after an index or
+# ignored packet): 200000 four-byte ignored packets in front of the only data packet, 4000 records.  One step of either iterator
+# needed about 2.5 ns x K x P = 2 s of CPU time before the repair and needs about 15 ms after it; the bound leaves a factor 8 to
+# the former and 16 to the latter.
+PROBE_SKIPPED_US = 250_000
 OPS_PER_PAGE, OPS_CONST = 2, 8          # one seek + one read per page touched, pages are touched in ascending order within a call
 TIME_LIMIT_US = 5_000_000       # CPU time of the harness thread during one call (wall time is reported only: it grows with the load of the machine)
 
@@ -165,6 +170,37 @@ def calls_of(t):
     return out
 
 
+def fixed_target_probe(rep, bases, replay):
+    """Blob extraction into a target of fixed capacity (`&mut [u8]`, harness kind BLOBRDS of file.rs: the extraction runs in a
+    thread of its own, `HANG` after 20 s): whatever the capacity - empty, one byte, one short, exact, one more - the call must
+    return.  -> number of violations"""
+    impl = core.ensure_harness("release")
+    cases = []
+    if replay and replay.get("kind") == "blob-fixed-target":
+        cases.append((bytes.fromhex(replay["file"]), replay["offset"], replay["length"], replay["capacity"], replay.get("base", "?")))
+    elif not replay:
+        for b in [b for b in bases if b.blobs and len(b.phys) <= 20000][:5]:
+            for off, ln in b.blobs[:2]:
+                for cap in sorted({0, 1, max(0, ln - 1), ln, ln + 1}):
+                    cases.append((b.phys, off, ln, cap, b.name))
+    if not cases:
+        return 0
+    outs = tot.run_lines(impl, ["BLOBRDS - %s %d %d %d" % (tot.devtok(f), off, ln, cap) for f, off, ln, cap, _ in cases])
+    bad = 0
+    classes = {}
+    for (f, off, ln, cap, name), o in zip(cases, outs):
+        rep.count(1)
+        rep.distinct(("blob-fixed-target", name, off, ln, cap))
+        classes[o.split()[0]] = classes.get(o.split()[0], 0) + 1
+        if o.startswith("HANG"):
+            bad += 1
+            rep.violation("c09-call-does-not-return",
+                          "E57Reader::blob of the blob at %d (length %d) of %s into a target of fixed capacity %d bytes did not return within 20 s" % (off, ln, name, cap),
+                          dict(kind="blob-fixed-target", file=f.hex(), offset=off, length=ln, capacity=cap, base=name))
+    rep.cov["blob_extraction_into_fixed_capacity_targets"] = dict(cases=len(cases), result_classes=classes)
+    return bad
+
+
 def run(rep, tier, rng, replay=None):
     ok = core.proof_step(rep, "C09", thorough=(tier == "thorough"))
     rep.level = "proof"   # partial in substance, see MANIFEST text
@@ -179,8 +215,12 @@ def run(rep, tier, rng, replay=None):
     if replay and replay.get("kind") == "zero-width-stream":
         zero_width_stream_probe(rep, packets=(int(replay["packets"]),), chunk=int(replay.get("chunk", ZW_CHUNK)))
         return
+    if replay and replay.get("kind") == "blob-fixed-target":
+        fixed_target_probe(rep, [], replay)
+        return
     n_probe_bad = zero_width_stream_probe(rep) if not replay else 0
     res = tot.explore(rep, tier, rng, replay)
+    n_probe_bad += fixed_target_probe(rep, res["bases"], replay)
     muts = res["muts"]
     stats = {}
     n_bad = n_corr = n_skip = n_model = 0
@@ -236,7 +276,9 @@ def run(rep, tier, rng, replay=None):
             elif me["o"] > OPS_PER_PAGE * pages + OPS_CONST:
                 desc = ("c09-device-operations", "%d device operations in %s on a file of %d pages (bound %d * pages + %d)" % (me["o"], label, pages, OPS_PER_PAGE, OPS_CONST))
             elif prof == "release" and me.get("c", 0) > TIME_LIMIT_US:
-                slow.append((me["c"], prof, m, label, masks if masks is not None else res["masks"]))
+                slow.append((me["c"], prof, m, label, masks if masks is not None else res["masks"], TIME_LIMIT_US, "c09-time"))
+            elif prof == "release" and kind in ("raw", "simple") and m["kind"].startswith("crafted-skipped-packets") and me.get("c", 0) > PROBE_SKIPPED_US:
+                slow.append((me["c"], prof, m, label, masks if masks is not None else res["masks"], PROBE_SKIPPED_US, "c09-skipped-packets-times-prototype"))
             elif re.search(r" over( |$)|end=over", text):
                 desc = ("c09-count", "%s yielded more points than the declared record count: %s" % (label, tot.strip_meter(text)[:160]))
             if desc:
@@ -306,7 +348,12 @@ def run(rep, tier, rng, replay=None):
                           dict(kind="free-descriptor", case=line, failing="correspondence raw iteration / blob model vs implementation incl. device operation counts"), no_input=True)
     # c09-time: only after the case, run ALONE up to three times, still needs more CPU time than the bound in every run
     n_time_unconfirmed = 0
-    for cpu, prof, m, label, masks in sorted(slow, key=lambda x: -x[0])[:4]:
+    picked, per_class = [], {}
+    for e in sorted(slow, key=lambda x: -x[0]):
+        if per_class.get(e[6], 0) < 2:
+            per_class[e[6]] = per_class.get(e[6], 0) + 1
+            picked.append(e)
+    for cpu, prof, m, label, masks, bound, cls in picked:
         line = "TOT %s %s -" % (tot.devtok(m["phys"]), "all" if masks == "all" else ",".join(str(x) for x in masks))
         best = None
         for _ in range(3):
@@ -316,12 +363,12 @@ def run(rep, tier, rng, replay=None):
             c = [tot.meter(text).get("c", 0) for kind, lab, text, z in calls_of(t) if lab == label]
             if c:
                 best = c[0] if best is None else min(best, c[0])
-            if best is not None and best <= TIME_LIMIT_US:
+            if best is not None and best <= bound:
                 break
-        if best is not None and best > TIME_LIMIT_US:
+        if best is not None and best > bound:
             n_bad += 1
-            rep.violation("c09-time", "%s profile, %s mutation of %s (%d bytes): a single call of %s needed %d us of CPU time in the sharded run and at least %d us in each of "
-                          "three runs of this file alone (bound %d us)" % (prof, m["kind"], m["base"], len(m["phys"]), label, cpu, best, TIME_LIMIT_US),
+            rep.violation(cls, "%s profile, %s mutation of %s (%d bytes): a single call of %s needed %d us of CPU time in the sharded run and at least %d us in each of "
+                          "three runs of this file alone (bound %d us)%s" % (prof, m["kind"], m["base"], len(m["phys"]), label, cpu, best, bound, ": " + m["note"] if m.get("note") else ""),
                           dict(kind="file", file=m["phys"].hex(), mutation=m["kind"], base=m["base"], entry=label, profile=prof))
         else:
             n_time_unconfirmed += 1
